@@ -8,14 +8,25 @@ package main
 //   cond  prog  <label>  forms=<..>  <sx>  <source>
 //      => `<obs interp> @@ <obs vm> @@ <obs vmopt>` | `reject:<first checker error>`
 //         obs = <outcome>|<logs>|<events>  (internal/l3run)
+//   cond  mprog <label>  forms=<..>  <sx>  <same|diff>:<split>  <source CA>  <source CB>  <script>
+//      the same calculus program rendered as two deployed contracts and a script: the interfaces
+//      I0..I(split-1) in contract CA at 0x1, the other interfaces and the composite S in contract CB
+//      (which imports CA) at 0x1 (`same`) or 0x2 (`diff`).  Result as for `prog`
+//      (`reject:<..>` when a deployment is refused).
 
 import (
 	"fmt"
 	"strconv"
 	"strings"
 
+	"github.com/onflow/cadence"
 	"github.com/onflow/cadence/ast"
+	"github.com/onflow/cadence/common"
+	"github.com/onflow/cadence/runtime"
 	"github.com/onflow/cadence/sema"
+	. "github.com/onflow/cadence/test_utils/runtime_utils"
+
+	"verif/harness/internal/cdc"
 
 	"verif/harness/internal/hx"
 	"verif/harness/internal/l3run"
@@ -101,16 +112,132 @@ func genCond(c *hx.Ctx) {
 	for i := 0; i < nConf; i++ {
 		c.Emit("cond", "conf", condGraph(c.Rng.Fork()))
 	}
-	for i := 0; i < c.N-nConf; i++ {
-		p := l3sx.GenCond(c.Rng.Fork())
-		c.Emit("cond", "prog", "g"+strconv.Itoa(i), "forms="+strings.Join(p.FormList(), ","), p.SX(),
-			strings.ReplaceAll(p.Src(), "\n", "\\n"))
+	esc := func(s string) string { return strings.ReplaceAll(s, "\n", "\\n") }
+	emitMulti := func(label string, p *l3sx.CProgram, r *hx.Rng) {
+		layout, addrB := "same", "0x1"
+		if r.Chance(30) {
+			layout, addrB = "diff", "0x2"
+		}
+		split := len(p.Ifaces)
+		if split > 1 && r.Chance(35) {
+			split = 1 + r.Intn(split)
+		}
+		a, b, m := p.SrcMulti(split, "0x1", addrB)
+		c.Emit("cond", "mprog", label, "forms="+strings.Join(append(p.FormList(), "multi-"+layout), ","), p.SX(),
+			layout+":"+strconv.Itoa(split), esc(a), esc(b), esc(m))
 	}
+	for i := 0; i < c.N-nConf; i++ {
+		r := c.Rng.Fork()
+		switch i % 6 {
+		case 1: // a random program, rendered as two contracts and a script
+			emitMulti("m"+strconv.Itoa(i), l3sx.GenCond(r), r)
+		case 3, 5: // own and inherited post-conditions both capture before values; two contracts
+			emitMulti("b"+strconv.Itoa(i), l3sx.GenCondBefore(r), r)
+		case 4: // the same family as one program
+			p := l3sx.GenCondBefore(r)
+			c.Emit("cond", "prog", "s"+strconv.Itoa(i), "forms="+strings.Join(p.FormList(), ","), p.SX(), esc(p.Src()))
+		default:
+			p := l3sx.GenCond(r)
+			c.Emit("cond", "prog", "g"+strconv.Itoa(i), "forms="+strings.Join(p.FormList(), ","), p.SX(), esc(p.Src()))
+		}
+	}
+}
+
+// ---- multi-program runs ----
+
+func condMultiRunOne(srcA, srcB, script, addrB string, mode lang.Mode) (res string) {
+	out := &cdc.Outcome{}
+	defer func() {
+		if r := recover(); r != nil {
+			res = "crash:escaped-panic||"
+		}
+	}()
+	codes := map[common.Location][]byte{}
+	var signers []common.Address
+	iface := &TestRuntimeInterface{
+		Storage:           NewTestLedger(nil, nil),
+		OnResolveLocation: MultipleIdentifierLocationResolver,
+		OnGetCode:         func(l runtime.Location) ([]byte, error) { return codes[l], nil },
+		OnGetAccountContractCode: func(l common.AddressLocation) ([]byte, error) {
+			return codes[l], nil
+		},
+		OnUpdateAccountContractCode: func(l common.AddressLocation, code []byte) error {
+			codes[l] = code
+			return nil
+		},
+		OnGetSigningAccounts: func() ([]runtime.Address, error) { return signers, nil },
+		OnProgramLog:         func(s string) { out.Logs = append(out.Logs, s) },
+		OnEmitEvent: func(ev cadence.Event) error {
+			out.Events = append(out.Events, ev)
+			return nil
+		},
+	}
+	nextTx := NewTransactionLocationGenerator()
+	deploy := func(addr byte, name, code string) error {
+		signers = []common.Address{common.MustBytesToAddress([]byte{addr})}
+		rt := NewTestRuntime()
+		tx := fmt.Sprintf(`transaction { prepare(signer: auth(Contracts) &Account) { signer.contracts.add(name: "%s", code: "%x".decodeHex()) } }`, name, code)
+		return rt.ExecuteTransaction(
+			runtime.Script{Source: []byte(tx)},
+			runtime.Context{Interface: iface, Location: nextTx(), ComputationGauge: &cdc.Gauge{Limit: 100000}},
+		)
+	}
+	if err := deploy(1, "CA", srcA); err != nil {
+		return "reject:CA:" + l3run.FirstKind(err)
+	}
+	ab := byte(1)
+	if addrB == "diff" {
+		ab = 2
+	}
+	if err := deploy(ab, "CB", srcB); err != nil {
+		return "reject:CB:" + l3run.FirstKind(err)
+	}
+	signers = nil
+	out.Logs, out.Events = nil, nil
+	rt := NewTestRuntimeWithConfig(DefaultTestInterpreterConfig)
+	ctx := runtime.Context{
+		Interface:        iface,
+		Location:         common.ScriptLocation{1},
+		UseVM:            mode != lang.Interp,
+		ComputationGauge: &cdc.Gauge{Limit: lang.Limit},
+	}
+	if mode != lang.Interp {
+		env := runtime.NewScriptVMEnvironment(rt.Config())
+		if !runtime.VerifSetPeepholeOptimizations(env, mode == lang.VMPeephole) {
+			panic("not a VM environment")
+		}
+		ctx.Environment = env
+	}
+	v, err := rt.ExecuteScript(runtime.Script{Source: []byte(script)}, ctx)
+	out.Value, out.Err = v, err
+	out.Class, out.Kind = cdc.Classify(err)
+	// each contract declares its own event E
+	return strings.NewReplacer("CA.E(", "E(", "CB.E(", "E(").Replace(l3run.Obs(out))
+}
+
+func execCondMulti(op []string) string {
+	if len(op) != 9 {
+		return "bad-op"
+	}
+	un := func(s string) string { return strings.ReplaceAll(s, "\\n", "\n") }
+	layout := strings.SplitN(op[5], ":", 2)[0]
+	parts := []string{}
+	for _, m := range []lang.Mode{lang.Interp, lang.VM, lang.VMPeephole} {
+		r := condMultiRunOne(un(op[6]), un(op[7]), un(op[8]), layout, m)
+		if strings.HasPrefix(r, "reject:") {
+			return r
+		}
+		parts = append(parts, r)
+	}
+	return strings.Join(parts, " @@ ")
 }
 
 func execCond(op []string) string {
 	if len(op) >= 3 && op[1] == "conf" {
 		return execCondConf(op[2])
+	}
+	if len(op) >= 2 && op[1] == "mprog" {
+		return execCondMulti(op)
 	}
 	src := strings.ReplaceAll(op[len(op)-1], "\\n", "\n")
 	if _, err := lang.Check(src); err != nil {
